@@ -254,7 +254,10 @@ impl<'a> Import<'a, &'a str, PathBuf> {
         if !rel.is_relative() {
             Err("non-relative path")?
         }
-        rel.set_extension(ext);
+        // the extension is only added if the path has none; `"data.cbor"` is left as it is
+        if rel.extension().is_none() {
+            rel.set_extension(ext);
+        }
 
         #[cfg(target_os = "windows")]
         let home = "USERPROFILE";
